@@ -78,6 +78,7 @@ def semtok_oracle(text, lexline, result, legend, adm):
         for col in cols:
             lex.setdefault((line, col), []).append((ty, lens, seg.count(b'\n')))
     prev = None
+    classes, seen = {}, set()
     for (l, c, ln, ty) in dec:
         cands = lex.get((l, c), [])
         hit = [x for x in cands if ln in x[1]]
@@ -95,6 +96,19 @@ def semtok_oracle(text, lexline, result, legend, adm):
             elif pnl == 0 and l == pl and c < pc + pln:
                 out.append(f'decoded ranges overlap at line {l} char {c}')
         prev = (l, c, ln, nl)
+        classes.setdefault(vty, set()).add(name)
+        seen.add((l, c))
+    # the word operators form one class: whatever it is called, all of them get the same legend entry
+    wo = {n for v in WORD_OPS for n in classes.get(v, ())}
+    if len(wo) > 1:
+        out.append('the word operators are not classified alike: ' + ', '.join(f'{v}={sorted(classes[v])}' for v in WORD_OPS if v in classes))
+    # comments and identifiers are highlighted wherever they stand (their class is not a matter of reading)
+    for (ty, s, e, l, c, f) in toks:
+        if f == 's' or ty not in ('Comment', 'Identifier'): continue
+        line, cols = lexcheck.line_col_candidates(b, s)
+        if not any((line, col) in seen for col in cols):
+            out.append(f'the {ty} lexeme at line {line} (byte {s}) is missing from the response')
+            break
     return out
 
 
@@ -110,6 +124,15 @@ def cases(ctx):
         err = rng.random() < 0.15
         t, feats = soup.text(size, allow_err=err, allow_opener=err and rng.random() < 0.3)
         docs.append((t, feats))
+    from .. import refgrammar
+    from .c08 import respell
+    refgrammar.Gen.OPS = refgrammar.ops_from_table(core.REPO)
+    kws = [l for (v, l, ic) in gen_text.token_literals()]
+    for i in range(40 if ctx.quick() else 800):
+        g = refgrammar.Gen(rng, kws)
+        lex, lib = g.library(1)
+        docs.append((respell(rng, lex, {'trivia', 'endif', 'kw'}), frozenset(['grammar-respelled'])))
+    docs.append(('PROGRAM p\nx := a AND b OR c XOR NOT d MOD e;\ny := a and b or c xor not d mod e;\nEND_PROGRAM\n', frozenset(['word-operators'])))
     out = []
     junk = ['', 'PROGRAM p END_PROGRAM', 'x ? y', '(* never closed', 'VAR a : INT; END_VAR']
     for t, feats in docs:
